@@ -1,6 +1,6 @@
 PROP = dict(
     props="Props/C13.v",
-    tie={"modules": ["Block", "CodecPb", "Dec", "BlockAccept", "TieC13"],
+    tie={"modules": ["GoSem", "Abi", "Block", "CodecPb", "Dec", "BlockAccept", "AbiCanon", "TieC13"],
          "fns": {
              "ab_preimage": ("ab_preimage_run", "bytes_eqb", "(ABody * bytes * bytes) * bytes"),
              "mom_preimage": ("mom_preimage_run", "bytes_eqb", "(Mom * bytes * bytes) * bytes"),
@@ -17,24 +17,28 @@ PROP = dict(
              "parse_nonce": ("parse_nonce_run", "obytes_eqb", "bytes * option bytes"),
              "big32": ("big32_run", "bytes_eqb", "Z * bytes"),
              "accept_user": ("accept_user_run", "accept_out_eqb", "accept_in * accept_out"),
+             "abi_canon": ("abi_canon_run", "obytes_eqb", "(bytes * list ty * bytes) * option bytes"),
          }},
     suites=[{"bin": "c13", "name": "codec", "n": {"quick": 160, "thorough": 4000}, "timeout": 600},
-            {"bin": "c13", "name": "node", "n": {"quick": 8, "thorough": 150}, "timeout": 1500}],
+            {"bin": "c13", "name": "node", "n": {"quick": 8, "thorough": 150}, "timeout": 1500},
+            {"bin": "c13", "name": "abicanon", "n": {"quick": 4, "thorough": 20}, "timeout": 2400}],
     rule="codec: generated account blocks of all five types and unknown types (every integer from boundary classes of uint64, byte arrays all-zero / all-0xff / random, amounts 0, small, 2^255-1, 2^256-1, powers of 256, random up to 256 bits, variable byte strings of length 0,1,2,31..33,64,127..129,300,1000, descendant trees of depth 0..2) and momentums (0..5 headers) through Serialize/Deserialize, rlp, MarshalJSON/UnmarshalJSON and the rpc form; crafted protos with a missing / mis-sized sub-message, damaged canonical bytes (truncation, bit flip, doubled message, unknown fields, non-minimal varint); decimal / hex texts incl. malformed ones; "
-         "node: histories on a real node (transfers with data, sentinel deposit/withdraw, fuse, donate, a failing sentinel registration that is refunded, receives), every accepted block re-delivered with one uncovered or re-derivable field altered, a node holding a variant is handed the producer's momentum, all stored blocks and momentums of the history through the codecs; a case is distinct by (function, input)",
-    explanation="Theorems: the hash pre-image is injective on the covered fields for well-formed blocks and momentums (fixed widths; Data, descendant hashes and content through hash injectivity on the inputs that occur); protobuf Serialize/Deserialize is the identity on every block tree and momentum, so the hash is preserved; decimal and hex text forms round-trip; for an accepted user block the plasma fields are functions of covered fields and context, and two accepted blocks with the same hash and the same (ChangesHash, PublicKey, Signature) have the same stored bytes and patch; for an accepted contract receive every descendant equals the regenerated one on its covered fields (after fix 3d79e01). "
+         "node: histories on a real node (transfers with data, sentinel deposit/withdraw, fuse, donate, a failing sentinel registration that is refunded, receives), every accepted block re-delivered with one uncovered or re-derivable field altered, a node holding a variant is handed the producer's momentum, all stored blocks and momentums of the history through the codecs; "
+         "abicanon: every method of every embedded contract in the four spork regimes (origin, accelerator, bridge+liquidity, htlc), argument tuples that pass the static checks, their edge cases (every dynamic argument empty / one element / long, all of them together) and random tuples, each packed canonically and in decodable non-canonical encodings (shared, overlapping, reordered, duplicated tails, gaps, unaligned offsets, trailing bytes, dirty ignored bytes of static words and of string padding; kept only if the real decoder returns the same values), every encoding in a user send hashed and signed outside the node and delivered through Supervisor.ApplyBlock, accepted blocks through pool, momentum and ledger read-back; a case is distinct by (function, input)",
+    explanation="Theorems: the hash pre-image is injective on the covered fields for well-formed blocks and momentums (fixed widths; Data, descendant hashes and content through hash injectivity on the inputs that occur); protobuf Serialize/Deserialize is the identity on every block tree and momentum, so the hash is preserved; decimal and hex text forms round-trip; for an accepted user block the plasma fields are functions of covered fields and context, and two accepted blocks with the same hash and the same (ChangesHash, PublicKey, Signature) have the same stored bytes and patch; for an accepted contract receive every descendant equals the regenerated one on its covered fields (after fix 3d79e01); an accepted call of an embedded method is stored as delivered and its call data is the canonical packing of the arguments it decodes to (ValidateSendBlock re-packs between the two hash checks; a method that returns before the re-pack accepts every decodable non-canonical encoding: refuted form proved, and checked on every method by the abicanon oracle accepted-call-data-is-canonical). "
                 "Refuted and kept as known findings: a user block with another ChangesHash, and a contract block with other uncovered fields (plasma fields, descendants' ChangesHash / key / signature / plasma fields), is accepted with the same hash and stored with different bytes. "
-                "Modelled: nom.AccountBlock/Momentum ComputeHash, Proto/DeProto, the protobuf wire form, NewMomentumContent, big.Int decimal text, hex text, the acceptance steps of verifier.AccountBlockTransaction + vm.enoughPlasma/applyBlock that touch uncovered fields. SHA3, ed25519, the VM patch and the regenerated contract block enter as functions of the covered fields (checked by the variant oracles on the real node).",
+                "Modelled: nom.AccountBlock/Momentum ComputeHash, Proto/DeProto, the protobuf wire form, NewMomentumContent, big.Int decimal text, hex text, the acceptance steps of verifier.AccountBlockTransaction + vm.enoughPlasma/applyBlock that touch uncovered fields, the ABI packer (pack.go, Type.pack, Arguments.Pack) on top of the decoder model of C09 and the re-pack step of ValidateSendBlock. SHA3, ed25519, the VM patch and the regenerated contract block enter as functions of the covered fields (checked by the variant oracles on the real node).",
     assumptions=["SHA3-256 is a function H with 32-byte results; injectivity is assumed only for the two inputs compared in a statement (hash pins content)",
                  "ed25519 verification and PubKeyToAddress are uninterpreted functions of (key, message, signature) / key",
                  "the patch computed by the VM for a block is a function of the chain context and the covered fields of the block (the variant oracles check on the real node that altering uncovered fields never changes the patch)",
                  "the contract receive regenerated by the node (vm.generateEmbeddedReceive) is a function of the chain context and FromBlockHash",
+                 "every embedded method's ValidateSendBlock has the shape decode / static checks / Data := PackMethod(decoded) (checked per method and regime by the abicanon suite on the real code, not proved from the Go source)",
                  "proto.Marshal emits known fields in field-number order (google.golang.org/protobuf, checked byte for byte on every case); unknown group fields are outside the decoder model"],
     trusted_base=["RLP and JSON encoders of the libraries are exercised by round-trip oracles on the real code, not modelled"],
 )
 META = dict(
     text="Machine-checked Coq theorems over all well-formed blocks / momentums (injectivity of the exact ComputeHash pre-image, protobuf round trip of the whole descendant tree by nested induction, decimal/hex round trips over all integers / byte strings) and over all accepted blocks of an acceptance model, tied to /repo by byte-for-byte comparison of pre-image, wire bytes and decoder results (incl. Go panics on malformed sub-messages) on generated and real blocks every run. Sampling encodings cannot show injectivity or that no third party can make a second acceptable variant; the theorem-driven question 'which fields does acceptance pin?' found a forgeable descendant (fixed) and two byte-level variants (known findings).",
     design_ref="DESIGN.md section 5, C13",
-    note="Partial: the effect-pinning theorems hold under the hypothesis that excludes the two known findings (same ChangesHash/key/signature for user blocks; contract blocks compared on covered fields only). RLP and JSON document structure are not modelled (round-trip oracles on the real code only); bech32/base64 text forms are not modelled. SHA3/ed25519 are uninterpreted. All theorems closed under the global context.",
+    note="Partial: the effect-pinning theorems hold under the hypothesis that excludes the two known findings (same ChangesHash/key/signature for user blocks; contract blocks compared on covered fields only). RLP and JSON document structure are not modelled (round-trip oracles on the real code only); bech32/base64 text forms are not modelled. The call-data theorem speaks about the acceptance steps around ValidateSendBlock with the re-pack as a modelled step; unpack(pack vs) = vs for all values (idempotence of the canonical form) is not proved, it is compared on every tie case. SHA3/ed25519 are uninterpreted. All theorems closed under the global context.",
     technique="Coq proof (list/append injectivity with fixed widths, nested induction over block trees, lia) + differential correspondence check + variant delivery oracles on a real node",
 )
